@@ -1,6 +1,7 @@
 import TacklerModel.Lemmas.RoundTripTxn
 import TacklerModel.Lemmas.RoundTripTs
 import TacklerModel.Props.C01
+import TacklerModel.Lemmas.AcceptOrder
 /-!
 # C06 — the identity export re-parses to the same transactions and is a fixed point
 
@@ -23,10 +24,15 @@ contract `DivExact` (re-multiplying the printed unit price gives the transaction
   equal, implicit amounts now explicit, unit prices re-derived by `div`.
 * **Composition**: `roundtrip_layout` — print the accepted transactions of a journal in any layout of the
   family and load the text: the result is exactly the originally loaded (sorted) list.  It is stated for the
-  transactions printed in the order in which they were accepted; the identity export prints them *sorted*,
-  which is the same when the input was in canonical order (`export_fixpoint_partial`).  For an input in
-  another order the missing step is that acceptance does not depend on the order in which transactions are
-  threaded through `Settings` (lax-mode registrations commute) — not proved, named in the `_partial`s.
+  transactions printed in the order in which they were accepted.  The identity export prints them *sorted*
+  (`TxnData::from`), i.e. in general in another order than the one in which the input threaded them through
+  `Settings`; `Lemmas/AcceptOrder.lean` shows that this order is immaterial (each transaction is accepted as if
+  it were alone, `acceptJournal_pointwise`), which gives `reaccept_perm` (the trees of the printed transactions
+  are accepted in *any* order), `identity_export_reloads` (the export of the loaded list loads to the loaded
+  list) and `export_fixpoint_partial` (the second export is byte-identical) for every accepted journal, in
+  whatever order it was written.  Still assumed there: `DivExact` (contract of `rust_decimal`'s division) and
+  the lexical well-formedness `WF`/`UnitNE` of what was accepted (`accept_wf` derives `WF` from `RawLex` of the
+  parser's output, which is not proved).
 -/
 namespace Tackler
 namespace C06
@@ -808,29 +814,105 @@ theorem roundtrip_accepted (cfg : Time.TsCfg) (L : Layout) (hL : LayoutOK L) (di
   exact (roundtrip_layout cfg L hL div st st' rs ts hacc hrs
     (fun r hr rp hrp => unitNE_of_lex rp ((hlex r hr).posts rp hrp)) hw hdiv).1
 
+theorem sortTxns_idem (ts : List Txn) : sortTxns (sortTxns ts) = sortTxns ts :=
+  List.mergeSort_of_pairwise (sortTxns_sorted ts)
+
+/-- **re-acceptance in any order**: the parse trees of the printed transactions of an accepted journal, arranged
+    in any order `ts'` (a permutation of the accepted list), are accepted — to exactly `ts'`.
+    (`reaccept_journal` for the acceptance order, then order independence of acceptance.) -/
+theorem reaccept_perm (div : Dec → Dec → Dec) (st st' : Settings) (rs : List RawTxn) (ts ts' : List Txn)
+    (h : acceptJournal st rs = .ok (ts, st')) (hp : ts'.Perm ts)
+    (hne : ∀ r ∈ rs, ∀ rp ∈ r.posts, UnitNE rp.unit) (hdiv : ∀ t ∈ ts, ∀ p ∈ t.posts, DivExact div p) :
+    ∃ st'', acceptJournal st (ts'.map (rawOf div)) = .ok (ts', st'') := by
+  have h0 := reaccept_journal div st st' rs ts h hne hdiv
+  have hm := (AcceptOrder.accept_as_map st (ts.map (rawOf div)) ts).mp ⟨st', h0⟩
+  rw [List.map_map] at hm
+  have hall : ∀ t ∈ ts, AcceptOrder.accO st (rawOf div t) = some t := List.map_inj_left.mp hm
+  apply (AcceptOrder.accept_as_map st (ts'.map (rawOf div)) ts').mpr
+  rw [List.map_map]
+  exact List.map_inj_left.mpr (fun t ht => hall t (hp.subset ht))
+
+/-- … and the settings after it have the same switches and the same charts, as sets, as after the original
+    journal (`hcl`: in lax mode the initial account chart is ancestor-closed, as `Settings.ofConfig` builds it) -/
+theorem reaccept_perm_state (div : Dec → Dec → Dec) (st st' st'' : Settings) (rs : List RawTxn) (ts ts' : List Txn)
+    (h : acceptJournal st rs = .ok (ts, st')) (hp : ts'.Perm ts)
+    (hne : ∀ r ∈ rs, ∀ rp ∈ r.posts, UnitNE rp.unit) (hdiv : ∀ t ∈ ts, ∀ p ∈ t.posts, DivExact div p)
+    (hcl : st.strict = false → C12.AncClosed st.accounts)
+    (h' : acceptJournal st (ts'.map (rawOf div)) = .ok (ts', st'')) : AcceptOrder.SameCharts st' st'' :=
+  (AcceptOrder.final_state_perm st st' st'' _ _ ts ts' (hp.symm.map (rawOf div)) hcl
+    (reaccept_journal div st st' rs ts h hne hdiv) h').1
+
+/-- **C06 `identity_export_reloads`.**  The round trip for the order the export really uses: the identity export
+    of the loaded (sorted) list of an accepted journal — whatever the order of the input — is a journal that
+    loads to exactly that list: same instants and offsets, codes, descriptions, uuids, locations, tags, comments,
+    accounts, amounts, commodities, transaction amounts, price kinds and posting comments, in the same order. -/
+theorem identity_export_reloads (cfg : Time.TsCfg) (div : Dec → Dec → Dec)
+    (st st' : Settings) (rs : List RawTxn) (ts : List Txn)
+    (hacc : acceptJournal st rs = .ok (ts, st')) (hrs : rs ≠ [])
+    (hne : ∀ r ∈ rs, ∀ rp ∈ r.posts, UnitNE rp.unit)
+    (hw : ∀ t ∈ ts, WF div t) (hdiv : ∀ t ∈ ts, ∀ p ∈ t.posts, DivExact div p) :
+    ∃ st'', loadText cfg st (identityExport div (sortTxns ts)) = .ok (sortTxns ts, st'') := by
+  have hp : (sortTxns ts).Perm ts := sortTxns_perm ts
+  have hlen : ts.length = rs.length := mapMS_length acceptTxn rs st st' ts hacc
+  have htne : ts ≠ [] := by
+    intro e; rw [e] at hlen; exact hrs (List.length_eq_zero_iff.mp hlen.symm)
+  have hsne : sortTxns ts ≠ [] := by
+    intro e; rw [e] at hp; exact htne hp.symm.eq_nil
+  obtain ⟨st'', h2⟩ := reaccept_perm div st st' rs ts (sortTxns ts) hacc hp hne hdiv
+  refine ⟨st'', ?_⟩
+  unfold loadText
+  rw [identity_roundtrip cfg div (sortTxns ts) hsne (fun t ht => hw t (hp.subset ht))]
+  simp only []
+  unfold loadJournal
+  obtain ⟨t0, tl, e⟩ := List.exists_cons_of_ne_nil hsne
+  rw [e] at h2 ⊢
+  simp only [List.map_cons] at h2 ⊢
+  rw [h2]
+  simp only [Outcome.map]
+  rw [← e, sortTxns_idem]
+
 /-- **C06 `export_fixpoint_partial`.**
-    Full statement: `identityExport (load (identityExport ts)) = identityExport ts` for every accepted journal.
-    Proved under (a) `DivExact` of `rust_decimal`'s division on the `@` postings (contract, tested by the tie), and
-    (b) the accepted transactions already being in canonical order (`Pairwise txnLe`), so that the export order is
-    the acceptance order.  Missing for (b): acceptance is independent of the order in which transactions pass
-    through `Settings`.  Under these the re-loaded list *equals* `ts`, so exporting it again gives the identical
-    text. -/
+    Full statement: `identityExport (load (identityExport L)) = identityExport L` for the loaded list `L` of every
+    accepted journal.  Proved for every accepted journal *in whatever order it was written* (the former
+    hypothesis "input in canonical order" is gone: `Lemmas/AcceptOrder`), under
+    (a) `DivExact` of `rust_decimal`'s division on the `@` postings (contract, tested by the tie) and
+    (b) the lexical well-formedness of the accepted transactions (`WF`, `UnitNE`; `accept_wf` derives `WF` from
+        `RawLex` of the parser's output, which is the unproved inverse direction of the per-parser lemmas).
+    `_partial` stays in the name because of (a) and (b).  The re-loaded list *equals* the loaded list
+    `sortTxns ts`, so exporting it again gives the identical text. -/
 theorem export_fixpoint_partial (cfg : Time.TsCfg) (div : Dec → Dec → Dec)
     (st st' : Settings) (rs : List RawTxn) (ts : List Txn)
     (hacc : acceptJournal st rs = .ok (ts, st')) (hrs : rs ≠ [])
-    (hsorted : ts.Pairwise (fun a b => txnLe a b = true))
     (hne : ∀ r ∈ rs, ∀ rp ∈ r.posts, UnitNE rp.unit)
     (hw : ∀ t ∈ ts, WF div t) (hdiv : ∀ t ∈ ts, ∀ p ∈ t.posts, DivExact div p) :
-    loadText cfg st (identityExport div ts) = .ok (ts, st') ∧
-    ∀ ts₂ st₂, loadText cfg st (identityExport div ts) = .ok (ts₂, st₂) → identityExport div ts₂ = identityExport div ts := by
-  obtain ⟨h1, h2⟩ := roundtrip_layout cfg Layout.identity layoutOK_identity div st st' rs ts hacc hrs hne hw hdiv
-  have hs : sortTxns ts = ts := List.mergeSort_of_pairwise hsorted
-  have : loadText cfg st (identityExport div ts) = .ok (ts, st') := by
-    unfold identityExport; rw [h1, h2, hs]
-  refine ⟨this, ?_⟩
-  intro ts₂ st₂ h
-  rw [this] at h
-  cases h; rfl
+    (∃ st'', loadText cfg st (identityExport div (sortTxns ts)) = .ok (sortTxns ts, st'')) ∧
+    ∀ ts₂ st₂, loadText cfg st (identityExport div (sortTxns ts)) = .ok (ts₂, st₂) →
+      identityExport div ts₂ = identityExport div (sortTxns ts) := by
+  obtain ⟨st'', h⟩ := identity_export_reloads cfg div st st' rs ts hacc hrs hne hw hdiv
+  refine ⟨⟨st'', h⟩, ?_⟩
+  intro ts₂ st₂ h2
+  rw [h] at h2
+  cases h2; rfl
+
+/-- the same, phrased on the load of the original journal: `L` is what `string_to_txns` returned -/
+theorem export_fixpoint_loaded_partial (cfg : Time.TsCfg) (div : Dec → Dec → Dec)
+    (st st' : Settings) (rs : List RawTxn) (L : List Txn)
+    (hload : loadJournal st rs = .ok (L, st'))
+    (hne : ∀ r ∈ rs, ∀ rp ∈ r.posts, UnitNE rp.unit)
+    (hw : ∀ t ∈ L, WF div t) (hdiv : ∀ t ∈ L, ∀ p ∈ t.posts, DivExact div p) :
+    (∃ st'', loadText cfg st (identityExport div L) = .ok (L, st'')) ∧
+    ∀ L₂ st₂, loadText cfg st (identityExport div L) = .ok (L₂, st₂) → identityExport div L₂ = identityExport div L := by
+  unfold loadJournal at hload
+  cases rs with
+  | nil => cases hload
+  | cons r tl =>
+    simp only at hload
+    obtain ⟨⟨ts, s1⟩, hacc, he⟩ := (Outcome.map_ok _ _ _).mp hload
+    simp only [Prod.mk.injEq] at he
+    obtain ⟨rfl, rfl⟩ := he
+    have hp : (sortTxns ts).Perm ts := sortTxns_perm ts
+    exact export_fixpoint_partial cfg div st s1 (r :: tl) ts hacc (by simp) hne
+      (fun t ht => hw t (hp.symm.subset ht)) (fun t ht => hdiv t (hp.symm.subset ht))
 
 /-- the executable division of the driver satisfies the contract whenever the transaction amount is an exact
     product `amount × price` -/
@@ -886,6 +968,24 @@ example : (match acceptText utc lax sample with
     | .ok (ts, _) => (match Print.identityExport? ts with
         | some text => (match acceptText utc lax text with
             | .ok (ts₂, _) => decide (Print.identityExport? ts₂ = some text)
+            | _ => false)
+        | none => false)
+    | _ => false) = true := by decide
+
+/-- a journal written in *descending* order: the export prints the accepted transactions in canonical order
+    (here: reversed), so the re-load threads them through the settings in another order than the input did;
+    the reversed list is exported, re-accepted to the same list and re-exported to the same text
+    (conclusion of `reaccept_perm` / `export_fixpoint_partial` for a non-canonical input; `sortTxns` itself is
+    not evaluated here — `List.mergeSort` does not reduce in the kernel) -/
+def sample2 : List Char := "2024-03-02 'second\n a:b 2 X\n c\n\n2024-03-01 'first\n a:b:d 1.5 X @ 2 Y\n e\n".toList
+
+set_option maxRecDepth 40000 in
+example : (match acceptText utc lax sample2 with
+    | .ok (ts, _) => (match Print.identityExport? ts.reverse with
+        | some text => (match acceptText utc lax text with
+            | .ok (ts₂, _) => decide (ts₂ = ts.reverse ∧ Print.identityExport? ts₂ = some text ∧
+                ts.reverse.map (·.header.desc) = [some "first", some "second"] ∧
+                (match ts.reverse with | [a, b] => txnLe a b && !txnLe b a | _ => false) = true)
             | _ => false)
         | none => false)
     | _ => false) = true := by decide
